@@ -94,6 +94,17 @@ EVENTS = {
     'S12': (['dtype', 'S12', [['B1', 12]], None, None], ['B1'], 'valid'),
     'x1^12': (['unit', 'S12', None, ['derive', ['x1']]], ['S12', 'x1'],
               'valid'),
+    # a unit derived from a scale-less unit of a base type with reference
+    # unit: it is no multiple of the derived type's reference unit
+    'xnone/y0': (['unit', 'V', 'xnone/y0', ['derive', ['xnone', 'y0']]],
+                 ['V', 'xnone'], 'valid'),
+    # a second unit with the definition of 'n1/x0' (type without reference
+    # unit: the two are different units)
+    'n1/x0b': (['unit', 'NB', 'n1px0', ['derive', ['n1', 'x0']]],
+               ['NB', 'n1'], 'valid'),
+    # an ISO code declared directly, and its registration afterwards
+    'JPYhand': (['newcur', 'JPY', 2, None], [], 'valid'),
+    '!JPYreg': (['cur', 'JPY'], ['JPY'], 'invalid:duplicate symbol'),
     # the same in a type with a quantum
     'Q1': (['type', 'Q1', 'q0', 'D:0.05'], [], 'valid'),
     'qnone': (['unit', 'Q1', 'qnone', ['none']], ['Q1'], 'valid'),
@@ -299,6 +310,26 @@ def observe(w, with_ops=True):
             except Exception as exc:
                 viol.append(('C15:scale', f"1 {sym} -> {tm.ref}: "
                              f"{type(exc).__name__}: {exc}"))
+    # a unit that is no multiple of its type's reference unit has no scale:
+    # it neither converts into that unit nor equals it
+    for sym, um in w.um.items():
+        tm = w.tm[um.tname]
+        if um.scale is None and tm.ref is not None and sym in w.units:
+            cls, u = w.types[um.tname], w.units[sym]
+            try:
+                r = cls(1, u).convert(cls.ref_unit)
+                viol.append(('C15:scale:unscaled-unit-converts',
+                             f"1 {sym} -> {tm.ref} gives {r!r} although "
+                             f"{sym} is no multiple of {tm.ref}"))
+            except Q.UnitConversionError:
+                pass
+            except Exception as exc:
+                viol.append(('C15:scale:unscaled-unit-converts',
+                             f"1 {sym} -> {tm.ref}: {type(exc).__name__}: "
+                             f"{exc}"))
+            if u == cls.ref_unit:
+                viol.append(('C15:scale:unscaled-unit-converts',
+                             f"Unit({sym}) == Unit({tm.ref})"))
     # every declared type
     for tname, tm in w.tm.items():
         cls = w.types[tname]
@@ -327,6 +358,10 @@ def observe(w, with_ops=True):
                              f"{tname}.ref_unit is defined as "
                              f"{ref.definition!r}, expected {t!r}"))
         fp['T:' + tname] = got
+    if 'Money' in w.tm:
+        for sym in w.tm['Money'].units:
+            c = w.units[sym]
+            fp['M:' + sym] = (c.name, str(c.smallest_fraction))
     try:
         fp['T:Quantity'] = sorted(x.symbol for x in Q.Quantity.units())
     except Exception as exc:
